@@ -261,6 +261,18 @@ func (p *Prog) Fn(name string) *ssa.Function {
 	return nil
 }
 
+// existing filters a list of function names to those present (helpers the
+// rules treat as optional: they may have been inlined into their callers).
+func (p *Prog) existing(names []string) []string {
+	var out []string
+	for _, n := range names {
+		if p.HasFn(n) {
+			out = append(out, n)
+		}
+	}
+	return out
+}
+
 // HasFn reports whether a function exists without recording a failure.
 func (p *Prog) HasFn(name string) bool { _, ok := p.Funcs[name]; return ok }
 
